@@ -11,6 +11,7 @@ def _mk(headers, checkpoints, npeers, start_heights, inv_ids, max_cf, max_batch,
         h.setdefault("kind", "ok")
         h.setdefault("work", 1)
         h.setdefault("gap", 0)
+        h.setdefault("run", 1)      # > 1: the id stands for a RUN of that many consecutive real headers (see long())
         h["height"] = 0 if h["id"] == 0 else ids[h["parent"]]["height"] + 1
     children = {}
     for h in headers:
@@ -246,7 +247,42 @@ def cpdeep():
                init_chains=[(0, 1), (0, 1, 2, 3), (0, 1, 2, 3, 4)])
 
 
-UNIVERSES = {"cpdeep": cpdeep, "u1l": u1l, "cpalt": cpalt, "quick": quick, "small": small, "u1": u1, "deep": deep, "retarget": retarget, "stale": stale}
+def long():
+    """Long stored chain (C19: the backlog of a subscriber that is thousands of blocks behind).  One id of the trunk
+    stands for a RUN of consecutive real headers (`run`; the id's own header is the last of the run): the model and
+    the Props keep counting in ids ("exactly the committed ids above k"), the driver writes / reads real headers and
+    folds a run back into its id only if all of its headers appear, in order.  Trunk ids end at the real heights
+    1, 500, 2000, 2001, 2500, 4000, 4001, 4500; stored chains end at 2000, 2001, 4000, 4001, 4500; every run boundary
+    is a height the backlog is requested from after every step, so the distances from the filter-header tip are
+    0, 1, 499, 500, 1499, 1500, 1501, 1999, 2000, 2001, 2499, 2500, 3500, 3501, 3999, 4000, 4499 and, once the live
+    headers 9, 10 (4501, 4502) or the branches 11 / 12-13 are on top, each of the tip-4500 ones + 1 and + 2 (4001,
+    4002, 2002, ...).  The trunk is written straight into the stores (initial chain, ImportReset); messages carry
+    single headers only.  Work of a trunk id is nominal (no fork starts below the trunk's end).  No retarget inside
+    the chain, inner headers 5 s apart (all younger than 24 h)."""
+    ends = [1, 500, 2000, 2001, 2500, 4000, 4001, 4500]
+    H = [{"id": 0, "parent": -1, "work": 2}]
+    prev = 0
+    for i, e in enumerate(ends):
+        H.append({"id": i + 1, "parent": i, "work": 2, "run": e - prev})
+        prev = e
+    H += [
+        {"id": 9, "parent": 8, "work": 1},           # live: 4501
+        {"id": 10, "parent": 9, "work": 1},          # 4502
+        {"id": 11, "parent": 8, "work": 2},          # heavier than 9 alone (1-deep reorganisation), tie with 9,10
+        {"id": 12, "parent": 8, "work": 2},
+        {"id": 13, "parent": 12, "work": 2},         # 12,13 heavier than 9,10: 2-deep reorganisation
+    ]
+    B = [[9], [9, 10], [11], [12, 13]]
+    u = _mk(H, {}, 1, [0, 11], [], 2, 2, batches=B,
+            init_chains=[tuple(range(0, 4)), tuple(range(0, 5)), tuple(range(0, 7)), tuple(range(0, 8)),
+                         tuple(range(0, 9))],
+            params={"retarget_blocks": 1000000, "reduce_min_difficulty": True})
+    u["run_gap_s"] = 5
+    u["init_full_only"] = True      # the stored chains come with all their filter headers
+    return u
+
+
+UNIVERSES = {"long": long, "cpdeep": cpdeep, "u1l": u1l, "cpalt": cpalt, "quick": quick, "small": small, "u1": u1, "deep": deep, "retarget": retarget, "stale": stale}
 
 
 def tla(u):
@@ -275,6 +311,11 @@ def tla(u):
            "InvIds == {" + ", ".join(str(x) for x in u["inv_ids"]) + "}",
            "MaxCF == %d" % u["max_cf"],
            "Batches == <<" + ", ".join(seq(b) for b in u["batches"]) + ">>",
+           # TRUE: every initial chain comes with all its filter headers (universes with runs: filter headers of a
+           # run are written the way the block headers are, by import, never by a cfheaders message)
+           "InitFullOnly == " + ("TRUE" if u.get("init_full_only") else "FALSE"),
+           # number of real headers an id stands for (documentation: the model counts in ids, the driver folds)
+           "RunOf == " + seq(h.get("run", 1) for h in hs),
            "InitChains == <<" + ", ".join(seq(c) for c in u["init_chains"]) + ">>",
            "MainChain == " + seq(u.get("main_chain") or max(u["init_chains"], key=len)),
            "===="]
